@@ -9,6 +9,18 @@ def menu_fn(w):
     m = metadata_menu(w)
     for i in range(w.NP):
         m.append(step.Delete(i))
+    # the same instance serves a read first: pairs whose concatenation pid+format coincides, and a plain repeat
+    def fmt_ok(f):
+        return f in w.formats
+    if "ab" in w.pids and "a" in w.pids and fmt_ok("c") and fmt_ok("bc"):
+        ia, iab = w.pids.index("a"), w.pids.index("ab")
+        for (i1, f1), (i2, f2) in (((iab, "c"), (ia, "bc")), ((ia, "bc"), (iab, "c"))):
+            m.append(step.After(step.RetrieveMeta(i1, f1), step.RetrieveMeta(i2, f2)))
+            m.append(step.After(step.RetrieveMeta(i1, f1), step.DeleteMeta(i2, f2)))
+            for v in range(w.ND):
+                m.append(step.After(step.RetrieveMeta(i1, f1), step.StoreMeta(i2, v, f2)))
+    m.append(step.After(step.RetrieveMeta(0, None), step.RetrieveMeta(0, "ns" if fmt_ok("ns") else None)))
+    m.append(step.After(step.RetrieveMeta(0, None), step.RetrieveMeta(1, None)))
     return m
 
 
